@@ -262,12 +262,19 @@ func (e *EvalBinaryNode) eval(scope *Scope, executionState ExecutionState) (resu
 	if err != nil {
 		if typeGuardErr, isTypeGuardError := err.error.(ErrTypeGuardFailed); isTypeGuardError {
 			// Fix the type info, thanks to the type guard info
+			prevLeftType, prevRightType := e.leftType, e.rightType
 			if err.IsLeft {
 				e.leftType = typeGuardErr.ActualType
 			}
 
 			if err.IsRight {
 				e.rightType = typeGuardErr.ActualType
+			}
+
+			// The type guard failed although the types are what we already assumed
+			// (for example a unary minus applied to a string), trying again cannot succeed.
+			if e.leftType == prevLeftType && e.rightType == prevRightType {
+				return boolFalseResultContainer, err
 			}
 
 			// redefine the evaluation fn
